@@ -175,6 +175,30 @@ Definition c13_step (rf0 : nat) (quiescent : bool) (prev : obs) (e : event) (cur
                      (addrs_of (o_replicas cur))
       end).
 
+(** ** C01 / C16, controller halves: out-of-range I/O and non-growing resizes touch nothing; a grow
+    reaches every replica in service *)
+Definition c01_step (rf0 : nat) (prev : obs) (e : event) (cur : obs) : bool :=
+  match e with
+  | Write _ off len _ | Read off len _ _ =>
+      if (off <? 0) || (o_size prev <? off + len)
+      then negb (is_ack cur) && untouched prev cur && lrep_eqb (o_replicas prev) (o_replicas cur)
+      else true
+  | _ => true
+  end.
+
+Definition rsize_of (o : obs) (a : addr) : Z := match rep_of o a with Some r => o_rsize r | None => 0 end.
+Definition c16_step (rf0 : nat) (prev : obs) (e : event) (cur : obs) : bool :=
+  match e with
+  | Resize sz fs =>
+      if sz <=? o_size prev
+      then negb (is_ack cur) && untouched prev cur && Z.eqb (o_size cur) (o_size prev)
+      else
+        (* every replica in service (RW or rebuilding) that did not fail the call has the new size *)
+        forallb (fun a => if flt fs a KResize then true else Z.eqb (rsize_of cur a) sz) (in_service (o_replicas prev))
+        && (if is_ack cur then Z.eqb (o_size cur) sz else Z.eqb (o_size cur) (o_size prev))
+  | _ => true
+  end.
+
 (** ** C09: bootstrap election *)
 (** oracle memory: the latest registration record of every address *)
 Definition regs := list (addr * (Z * bool)).
@@ -280,7 +304,8 @@ Definition nopair (prev : obs) (a b : event) (cur : obs) : bool := true.
 Record verdict := mkverdict {
   v_diff : option (nat * nat);
   v_c02 : option nat; v_c03 : option nat; v_c04 : option nat; v_c05 : option nat;
-  v_c09 : option nat; v_c13 : option nat; v_c18 : option nat      (* first step at which the oracle fails *)
+  v_c09 : option nat; v_c13 : option nat; v_c18 : option nat;     (* first step at which the oracle fails *)
+  v_c01 : option nat; v_c16 : option nat
 }.
 
 Definition obs0 (rf0 n : nat) (w0 : world) : obs := observe n (init rf0 w0) ROk noeff.
@@ -321,7 +346,9 @@ Definition check_case (x : xcase) : verdict :=
     (walk (lift (c05_step rf0) nopair) 0 o0 (c_events c) (c_obs c))
     (walk_g (fun g => lift (c09_step rf0 g) nopair) 0 [] o0 (c_events c) (c_obs c))
     (walk_q (fun q => lift (c13_step rf0 q) (c13_pair rf0)) 0 o0 (c_events c) (c_obs c) (x_quiet x))
-    (walk_q (fun q => lift (c18_step rf0 q) (fun prev a b cur => c18_step rf0 q prev (SetMode 0%nat WO) cur)) 0 o0 (c_events c) (c_obs c) (x_quiet x)).
+    (walk_q (fun q => lift (c18_step rf0 q) (fun prev a b cur => c18_step rf0 q prev (SetMode 0%nat WO) cur)) 0 o0 (c_events c) (c_obs c) (x_quiet x))
+    (walk (lift (c01_step rf0) nopair) 0 o0 (c_events c) (c_obs c))
+    (walk (lift (c16_step rf0) nopair) 0 o0 (c_events c) (c_obs c)).
 
 Definition on (o : option nat) : nat := match o with Some i => S i | None => 0%nat end.
 
@@ -331,7 +358,8 @@ Fixpoint bad_cases (i : nat) (cs : list xcase) : list (nat * (nat * nat) * list 
   | [] => []
   | c :: t =>
       let v := check_case c in
-      let fl := [on (v_c02 v); on (v_c03 v); on (v_c04 v); on (v_c05 v); on (v_c09 v); on (v_c13 v); on (v_c18 v)] in
+      let fl := [on (v_c02 v); on (v_c03 v); on (v_c04 v); on (v_c05 v); on (v_c09 v); on (v_c13 v); on (v_c18 v);
+                 on (v_c01 v); on (v_c16 v)] in
       let d := match v_diff v with Some d => d | None => (0, 0)%nat end in
       if Nat.eqb (fold_left Nat.add fl 0%nat) 0%nat && match v_diff v with None => true | _ => false end
       then bad_cases (S i) t
